@@ -836,8 +836,10 @@ class VF:
         return T.app('opaque:other')
 
     # ---- statements / blocks
-    def ev_Block(self, n):
-        for s in n['stmts']:
+    def ev_Block(self, n, start=0):
+        stmts = n['stmts']
+        for idx in range(start, len(stmts)):
+            s = stmts[idx]
             if self.dead:
                 break
             if s['k'] == 'Expr':
@@ -849,8 +851,17 @@ class VF:
                     if self.dead:
                         break
                     if s.get('else') is not None:
-                        # let-else: the else block diverges; record and go on with the match
+                        # let-else: `let P = v else { diverge };  rest`  is  `if let P = v { rest } else { diverge }`
                         self.note('let-else', s)
+                        cond = self.pat_cond(s['pat'], v)
+                        if cond is not T.TRUE:
+                            self.record_handled(s['pat'], v, s)
+
+                            def then_fn(s=s, v=v, idx=idx):
+                                self.bind(s['pat'], v)
+                                return self.ev_Block(n, idx + 1)
+
+                            return self.branch(cond, then_fn, lambda s=s: self.ev(s['else']))
                     self.bind(s['pat'], v)
                 else:
                     self.bind_uninit(s['pat'])
@@ -987,7 +998,8 @@ class VF:
         errc = T.app('is:Err', t)
         # record an early error return (state = current store)
         if self.fn_exits:
-            self.fn_exits[-1].append((T.land(*(self.pc + [errc])), T.app('err_of', t), dict(self.store)))
+            # (what `return Err(e)` in the Err arm of a match returns; the From conversion of the error is an alias here)
+            self.fn_exits[-1].append((T.land(*(self.pc + [errc])), T.app('Err', T.app('payload:Err', t)), dict(self.store)))
         if self.loop_exits:
             self.loop_exits[-1].append(('return', None, T.land(*(self.pc_since_loop() + [errc])), None))
         return val
@@ -1342,6 +1354,10 @@ class VF:
             if init == T.app('array'):
                 return c
             return T.app('concat', init, c)
+        if T.is_app(nxt, 'push') and nxt[2][0] == lh and init == T.app('array') and hasattr(ls, 'uid') and not any(x is lh for x in T.subterms(nxt[2][1])):
+            # one element per iteration computed from carried state (a generator, a running value): the same collection that
+            # `map(..).collect()` over a stateful closure builds -- elements in iteration order, marked with the loop they come from
+            return T.app('eff', mk_comp(ls.n, ls.var, nxt[2][1]), T.sym('loop%d' % ls.uid))
         return None
 
     def as_seq(self, v, node=None):
@@ -1521,6 +1537,12 @@ def variant_test(variant, t):
     """`t` matches `variant`: bounds test for v.get(i), otherwise an uninterpreted is:<variant>(t)"""
     if T.is_app(t, 'opt') and variant in ('Some', 'None'):
         return t[2][0] if variant == 'Some' else T.lnot(t[2][0])
+    # two-variant std enums: one test and its negation, so that `match r { Ok(v) => A, Err(e) => B }`, `if let Err(e) = r { B } else { A }`
+    # and `r?` put the same condition on the same path
+    if variant == 'Ok':
+        return T.lnot(T.app('is:Err', t))
+    if variant == 'None':
+        return T.lnot(T.app('is:Some', t))
     return T.app('is:' + variant, t)
 
 
@@ -1595,6 +1617,17 @@ def mk_comp(n, k, elem):
     # eta: [X[k] | k < len(X)] is X itself
     if T.is_app(elem, 'index') and elem[2][1] is k and not any(x is k for x in T.subterms(elem[2][0])) and n is seq_len(elem[2][0]):
         return elem[2][0]
+    # [if k < a { A(k) } else { B(k - a) } | k < a + m]  is  A-part ++ B-part (`a.chain(b)` collected, `v = a; v.extend(b)`): one spelling
+    if isinstance(elem, T.Tm) and elem[0] == 'ite' and elem[1][0] == 'cmp' and elem[1][1] == 'gt':
+        a = T.add(elem[1][2], k)            # the test is  a - k > 0
+        if not any(x is k for x in T.subterms(a)):
+            m = T.sub(n, a)
+            from .semtab import nonneg_usize_poly
+            if nonneg_usize_poly(a) and nonneg_usize_poly(m):
+                k2 = T.sym('k#split')
+                left = mk_comp(a, k, elem[2])
+                right = mk_comp(m, k2, T.subst(elem[3], {k: T.add(k2, a)}))
+                return T.app('concat', left, right)
     h = binder_height(elem) + 1
     bv = T.sym('%%b%d' % h)
     body = T.subst(elem, {k: bv})
